@@ -42,11 +42,11 @@ ASSUMPTIONS = [
 ]
 BUDGET = {"quick": {"worker_timeout": 900, "case_timeout": 120}, "thorough": {"worker_timeout": 3300, "case_timeout": 300}}
 REQUIRED_COUNTERS = {
-    "quick": {"silent_results_checked": 1000, "warned_results": 150, "must_silent_cases": 900, "history_located": 900,
+    "quick": {"extra_alias_compared": 40, "silent_results_checked": 1000, "warned_results": 150, "must_silent_cases": 900, "history_located": 900,
               "exact_root_after_step": 40, "exact_root_at_start": 60, "complex_cases": 300, "line_search_off": 400,
               "objective_clause_checked": 250, "reference_compared": 900, "user_function_evaluations": 60000,
               "forced_warning_path": 100, "method_gd": 50, "method_adam": 50, "method_anderson_acc": 60},
-    "thorough": {"silent_results_checked": 10000, "warned_results": 2000, "must_silent_cases": 8000, "history_located": 8000,
+    "thorough": {"extra_alias_compared": 400, "silent_results_checked": 10000, "warned_results": 2000, "must_silent_cases": 8000, "history_located": 8000,
                  "exact_root_after_step": 400, "exact_root_at_start": 400, "complex_cases": 4000, "line_search_off": 5000,
                  "objective_clause_checked": 3000, "reference_compared": 9000, "user_function_evaluations": 800000,
                  "forced_warning_path": 1500, "method_gd": 600, "method_adam": 600, "method_anderson_acc": 800},
@@ -143,6 +143,8 @@ def cases(seed, tier):
                                     "x_tol": None, "rtol": None, "maxiter": None, "ls": (k % 2 == 0) if method in RF else None,
                                     "placement": PLACEMENTS[k % 4], "gdclass": GD_CLASSES[k % 3] if method in ("gd", "adam") else None})
                         k += 1
+    from vf import c03_extra
+    out.extend(c03_extra.cases(seed, tier))
     return out
 
 
@@ -161,6 +163,9 @@ def _spell(name, how):
 
 
 def run_case(desc):
+    if desc.get("group") == "alias":
+        from vf import c03_extra
+        return c03_extra.run_case(desc)
     from xitorch.optimize import rootfinder, equilibrium, minimize
     obs = Obs(desc)
     task = desc.get("task", desc["group"])
